@@ -765,10 +765,13 @@ pub fn run(args: &Args) {
     let mut rep = Report::new(args, Level::Exploration);
     let mut exhaustive = true;
     let mut sizes = Vec::new();
-    let spaces: Vec<Box<dyn Space>> = SPACES.iter().map(|n| space_by_name(n, args)).collect();
+    // debugging aid only: VM_CHECK_SPACES=a,b restricts the run (the vacuity guards then fail it)
+    let filter = std::env::var("VM_CHECK_SPACES").ok();
+    let names: Vec<&str> = SPACES.iter().copied().filter(|n| filter.as_ref().is_none_or(|f| f.split(',').any(|x| x == *n))).collect();
+    let spaces: Vec<Box<dyn Space>> = names.iter().map(|n| space_by_name(n, args)).collect();
     let refs: Vec<&dyn Space> = spaces.iter().map(|b| b.as_ref()).collect();
     let results = common::run_spaces(&refs, args, 32);
-    for ((n, sp), (acc, complete)) in SPACES.iter().zip(spaces.iter()).zip(results) {
+    for ((n, sp), (acc, complete)) in names.iter().zip(spaces.iter()).zip(results) {
         exhaustive &= complete;
         sizes.push(json!({"space": n, "units": sp.units(), "child_cpu_wall_s": acc.counters.get("child_wall_ms").copied().unwrap_or(0) / 1000, "evaluations": acc.counters.get("evaluations").copied().unwrap_or(0), "parsed_ok": acc.counters.get("parsed_ok").copied().unwrap_or(0), "compiled_ok": acc.counters.get("compiled_ok").copied().unwrap_or(0)}));
         common::fold(&mut rep, n, acc);
